@@ -352,16 +352,33 @@ def case(seed):
         os.makedirs(src)
         texts = {}
         st_ = fgen.Style(seed + 4)
+        fnk = 0
         for f in files:
             stmts = fgen.render_file(f, st_)
+            # some comments keep their last line in a Markdown footnote (the words stay the entity's own, wherever the note is rendered)
+            for sm in stmts:
+                if len(sm.docs) >= 2 and sm.kind != "filedoc" and not any(":" in d or not d.strip() for d in sm.docs) and rng.random() < 0.3:
+                    fnk += 1
+                    sm.docs = [sm.docs[0] + f"[^fn{fnk}]"] + list(sm.docs[1:-1]) + ["", f"[^fn{fnk}]: " + sm.docs[-1]]
             t = layout.Layout(seed, plain=True).free(stmts)
             texts[f.name] = t
             open(os.path.join(src, f.name + ".f90"), "w").write(t)
         if seed % 3 != 0:
             texts["zz_separate"] = separate_procs(sel, seed, project_display, proc_internals, hide_undoc)
             open(os.path.join(src, "zz_separate.f90"), "w").write(texts["zz_separate"])
-        opts = {"project": f"P{seed}", "src_dir": "./src", "output_dir": "./doc", "preprocess": False, "parallel": 0, "graph": rng.random() < 0.25,
+        if seed % 2:
+            # a public type between private types (parent, component types): its graphs name them, with or without pages to link to
+            texts["zz_shapes"] = "\n".join([
+                f"module zsh{seed}", "!! doc", "implicit none", "private", f"public :: zcircle{seed}, zpoint{seed}, zstyle{seed}",
+                f"type :: zbase{seed}", "!! doc", "integer :: ident = 0", f"end type zbase{seed}", f"type :: zcolour{seed}", "!! doc", "integer :: rgb = 0", f"end type zcolour{seed}",
+                f"type :: zpoint{seed}", "!! doc", "real :: x = 0.0", f"end type zpoint{seed}", f"type :: zstyle{seed}", "!! doc", "integer :: width = 1", f"end type zstyle{seed}",
+                f"type, extends(zbase{seed}) :: zcircle{seed}", "!! doc", f"type(zpoint{seed}) :: centre", f"type(zstyle{seed}) :: style", f"type(zcolour{seed}) :: colour", f"end type zcircle{seed}",
+                f"end module zsh{seed}"]) + "\n"
+            open(os.path.join(src, "zz_shapes.f90"), "w").write(texts["zz_shapes"])
+        opts = {"project": f"P{seed}", "src_dir": "./src", "output_dir": "./doc", "preprocess": False, "parallel": 0, "graph": rng.random() < 0.4,
                 "search": True, "display": project_display, "proc_internals": proc_internals, "hide_undoc": hide_undoc, "incl_src": incl_src, "quiet": True}
+        if opts["graph"] and rng.random() < 0.7:
+            opts["graph_maxnodes"] = rng.choice([1, 2, 3])  # small: graphs are rendered as tables of links
         site.write_project_file(base, opts)
         st, r = core.run_alone(run_case, {"root": base}, timeout=300)
         cfg = {"display": ",".join(project_display), "proc_internals": proc_internals, "hide_undoc": hide_undoc, "incl_src": incl_src}
